@@ -276,6 +276,12 @@ PROPS["C03"] = {
         K("canary: gate rejects every epoch-0 record", "canary_gate_rejects_all_epoch0", "quick", "canary", ["DtlsInner::try_decrypt_record"],
           "false claim, must FAIL", expect="fail", module=DM),
     ],
+    "verus": [
+        V("record dispatch: only what the gate returned reaches the upper layer / state machine (Verus)", "dtls_record_dispatch", "quick", "proof",
+          ["DtlsInner::handle_incoming_packet", "DtlsRecord::decode"],
+          "verbatim handle_incoming_packet (one task's sequential reading) with the real DtlsRecord::decode under 'a decoded record consumes >= 13 octets': every (content type, payload) handed to handle_decrypted_record is the Ok result of try_decrypt_record for that very record (sink precondition established only by the gate's contract); a rejected record ends the datagram; the record walker terminates",
+          min_verified=5),
+    ],
 }
 
 # =============================================================================== C15
@@ -600,6 +606,10 @@ PROPS["C01"] = {
         V("delivered sequence is a prefix for every arrival history (Verus lemma)", "sctp_inbound", "quick", "proof", ["InboundStream::enqueue"],
           "lemma delivered_is_prefix over the enqueue contract: for ANY subset of the sender's messages (N <= 65535, SSNs key(s0,i) incl. wrap) arriving in ANY order, after every arrival the application has received exactly msgs[0..d) — in order, nothing duplicated, altered or fabricated — where d is the length of the contiguous arrived prefix (induction over the arrival sequence; step lemma step_preserves; satisfiability witness exec_ok_is_satisfiable)",
           min_verified=15),
+        V("TSN-level buffer and in-order drain, incl. the 2^32 wrap (Verus)", "sctp_tsn_drain", "quick", "proof",
+          ["SctpInner::handle_data (slow path: buffer the chunk, drain the in-order run)"],
+          "the slow-path statements of handle_data, copied verbatim as a function of the lock guard over BTreeMap<u32,(u8,Bytes)> (vstd specification through Deref/DerefMut contracts), the cumulative TSN and the arriving chunk: the chunk is buffered under its TSN with exactly its flags and bytes unless that TSN is already buffered; the chunks handed on are exactly the buffered chunks cum+1, cum+2, .. (mod 2^32) in that order up to the first gap; exactly those keys leave the buffer, every other entry is unchanged; the drain loop terminates",
+          min_verified=5),
     ],
 }
 
